@@ -134,6 +134,9 @@ def table_entries(t, style):
         ents.append(("y", " ".join(num(v) for v in t["y"])))
     elif fmt == "xy_line":
         ents.append(("xy", " ".join("%s %s" % (num(a), num(b)) for a, b in zip(t["x"], t["y"]))))
+    elif fmt == "y_x":
+        ents.insert(0, ("y", " ".join(num(v) for v in t["y"])))
+        ents.append(("x", " ".join(num(v) for v in t["x"])))
     else:  # xy continuation lines
         ents.append(("xy", "\n    ".join("%s %s" % (num(a), num(b)) for a, b in zip(t["x"], t["y"]))))
     return ents
